@@ -17,7 +17,7 @@ from . import corpus
 _OPEN, _CLOSE = "([{", ")]}"
 GAP_DEVS = ["", " ", "  ", "\t", "\\\n", " \\\n    ", "\f"]
 BRACKET_DEVS = ["\n", "\n        ", " # c\n", "\n\n", "\n# c\n  "]
-LINE_DEVS = ["\n", "   \n", "# c\n", "\t\n", "\f", "\f\n", "    # c\n", "\\\n"]
+LINE_DEVS = ["\n", "   \n", "# c\n", "\t\n", "\f", "\f\n", "    # c\n", "\\\n", "  \f", " \f ", "\t\f"]
 _INDENT = re.compile(r"(?m)^((?:    )+)")
 
 
